@@ -277,8 +277,17 @@ Definition share_instance (p : prov) (h : nat) (d : desc) (i : inst) : prov :=
   | Scoped => cache_set p h (ds_ident d) i
   | Transient => p
   end.
+(* an output of a multi-output constructor whose registration was removed: stored nowhere, disposed by its owner *)
+Definition drop_output (p : prov) (h : nat) (life : lifetime) (i : inst) : prov :=
+  match life with
+  | Singleton => track_single p i
+  | _ => track_scope p h i
+  end.
 Definition aliases_of (c : coll) (d : desc) : list desc :=
   filter (fun d' => (ds_rid d' =? ds_rid d) && (ds_call d' =? ds_call d) && negb (ident_eqb (ds_ident d') (ds_ident d))) c.
+
+Definition output_desc (c : coll) (d : desc) (k : nat) : option desc :=
+  find (fun d' => (ds_rid d' =? ds_rid d) && (ds_call d' =? ds_call d) && (ds_out d' =? k)) c.
 
 Definition has_err (r : reg) : bool :=
   match r_form r with FInst _ => false | FCtor _ _ _ e | FResult _ _ _ e => e end.
@@ -344,15 +353,17 @@ Section Resolve.
         end
     end.
 
-  (* fan-out of a multi-return constructor / result object: output k is stored under the descriptor
-     registered for (type, key) *)
-  Fixpoint fan_out (p : prov) (h : nat) (r : reg) (inv : nat) (outs : list (nat * ty * key)) : prov + eclass :=
-    match outs with
-    | [] => inl p
-    | (k, t, ky) :: rest =>
-        match find_service (p_descs p) t ky with
-        | None => inr EOther
-        | Some sd => fan_out (set_instance p h sd (out_inst r inv k)) h r inv rest
+  (* fan-out of a multi-return constructor / result object: output k is stored under the descriptor that
+     the same registration call created for output k, as far as the provider's snapshot still holds it
+     (one identity of the registration may have been removed, or removed and registered again by another
+     constructor, before Build) *)
+  Fixpoint fan_out (p : prov) (h : nat) (d : desc) (inv : nat) (ks : list nat) : prov :=
+    match ks with
+    | [] => p
+    | k :: rest =>
+        match output_desc (p_descs p) d k with
+        | None => fan_out (drop_output p h (ds_life d) (out_inst (ds_reg d) inv k)) h d inv rest
+        | Some sd => fan_out (set_instance p h sd (out_inst (ds_reg d) inv k)) h d inv rest
         end
     end.
 
@@ -386,16 +397,9 @@ Section Resolve.
                     let p2 := fold_left (fun p a => share_instance p h a i) (aliases_of (p_descs p1) d) p1 in
                     (with_p rs2 p2, ROkV (AInst i))
                 | FCtor _ _ ts _ =>
-                    match fan_out (rs_p rs2) h r inv (map (fun '(k, t) => (k, t, KNone)) (combine (seq 0 (length ts)) ts)) with
-                    | inl p1 => (with_p rs2 p1, ROkV (AInst (out_inst r inv (ds_out d))))
-                    | inr e => (rs2, RFail e)
-                    end
+                    (with_p rs2 (fan_out (rs_p rs2) h d inv (seq 0 (length ts))), ROkV (AInst (out_inst r inv (ds_out d))))
                 | FResult _ _ fs _ =>
-                    match fan_out (rs_p rs2) h r inv
-                            (map (fun '(k, f) => (k, f_ty f, name_key (f_name f))) (combine (seq 0 (length fs)) fs)) with
-                    | inl p1 => (with_p rs2 p1, ROkV (AInst (out_inst r inv (ds_out d))))
-                    | inr e => (rs2, RFail e)
-                    end
+                    (with_p rs2 (fan_out (rs_p rs2) h d inv (seq 0 (length fs))), ROkV (AInst (out_inst r inv (ds_out d))))
                 | FInst _ => (rs2, RFail EOther)
                 end
             end
